@@ -342,6 +342,7 @@ func genC17(c *Ctx) {
 			c17GenMonitor(c, line, out)
 		}
 	}
+	genRenum(c)
 	c17Storage(c)
 }
 
